@@ -35,6 +35,36 @@ META = {
  "C05-2": dict(property="C05", breaks="strings and metadata read back: empty strings are left unencrypted under AES, and the reader fails the whole object on them",
    needs="AES-128/256 and a document containing an empty string (empty /Subject, annotation contents or field value)",
    caught_by="C05 (classes user-password:metadata-differs / annotation-differs / field-differs)", first_run="MISSED; caught after the generator produced empty strings"),
+ "C17-1": dict(property="C17", breaks="valid chain of revisions / latest value: the merged xref table reports the OLDEST section's offset, so the next incremental edit chains its /Prev past the intermediate revisions and earlier edits revert",
+   needs="a history of at least two edits through IncrementalFormFiller / IncrementalTextNoteEditor where the second does not rewrite what the first did",
+   caught_by="C17 (class independent-reader:no-new-revision)", first_run="caught"),
+ "C17-2": dict(property="C17", breaks="output begins with the previous file's bytes: page replacement copies the base with write() instead of write_all() and continues from the short count",
+   needs="a sink that accepts only part of a large buffer (pipe, socket, custom Write)",
+   caught_by="C17 (class not-append-only)", first_run="caught (the page-replacement edit writes through a shortening SimSink)"),
+ "C19-1": dict(property="C19", breaks="faithful reconstruction: an unparseable xref entry line no longer consumes an object number, shifting every later entry of the subsection",
+   needs="one junk entry that is not the last of its subsection, opened under tolerant / skip_errors (where HEAD fills the gap from the header scan)",
+   caught_by="C19 (classes accepted-damaged-xref:CorruptEntry0:tolerant / :skip_errors)", first_run="MASKED by the then single coarse known-finding class accepted-damaged-xref:*; caught after the class was keyed by damage kind and preset, so that combinations which are faithful today stay checkable"),
+ "C19-2": dict(property="C19", breaks="faithful reconstruction: off-by-one in the xref-vs-/Size check accepts a table whose subsection start is shifted by exactly +1",
+   needs="classic table, subsection start shifted up by one",
+   caught_by="C19 (classes accepted-damaged-xref:Subsection:<preset>)", first_run="MASKED likewise; caught after the same refinement"),
+ "C20-1": dict(property="C20", breaks="serialising the same document twice: /Info is written before the catalog creates the AcroForm, so the feature fingerprint differs between the first and the second write of the same Document value",
+   needs="form fields through set_form_manager, the SAME Document value serialised twice",
+   caught_by="C20 (class same-document-value-serialises-differently-the-second-time)", first_run="MISSED (every serialisation built a fresh Document); caught after C20 also wrote one Document value twice"),
+ "C20-2": dict(property="C20", breaks="identical bytes: colour-space resources no longer sorted before object ids are allocated, so ICC profile streams are numbered in HashMap order",
+   needs="one page with two or more ICC-based colour spaces; comparison between separately built documents",
+   caught_by="C20 (class output-depends-on-entropy)", first_run="MISSED (no ICC colour spaces generated); caught after the generator registered 2-5 ICC spaces on a page"),
+ "C22-1": dict(property="C22", breaks="stop-on-error: the cancel-flag store moved inside the panic-catching closure, so a job that fails by panicking never sets it",
+   needs="stop_on_error, the first failing job panics, at least one job after it",
+   caught_by="C22 (class O5a-ran-after-failure-on-same-worker)", first_run="caught"),
+ "C22-2": dict(property="C22", breaks="progress counters end consistent: running_jobs decremented by load + store instead of one atomic fetch_sub, so concurrent completions lose a decrement",
+   needs="two workers finishing at overlapping instants",
+   caught_by="C22 (class O3-progress-counters, with the interleaving in the replay file)", first_run="caught"),
+ "C29-1": dict(property="C29", breaks="capacity bound and LRU eviction under concurrency: ObjectCache::get looks up under the read lock and touches under the write lock; an eviction in between leaves a ghost in the order queue",
+   needs="get(k) overlapping a put that evicts k",
+   caught_by="C29 (classes capacity-exceeded, not-linearizable)", first_run="caught"),
+ "C29-2": dict(property="C29", breaks="the evicted entry is the least recently used: promote() uses swap_remove_back, which scrambles the recency order",
+   needs="capacity >= 4, a hit on an entry at queue index 1..len-3, then a put of a new key",
+   caught_by="C29 (classes seq-mismatch, not-linearizable)", first_run="caught"),
 }
 
 def main():
